@@ -136,15 +136,22 @@ pub fn record(mode: &str, seed: u64, n: usize, out: &mut Out, shard: u32, of: u3
                 out.emit(htyp_event_fill(b, true), true);
                 let std = 4 + 4 * ((b >> 2 & 1) + (b >> 3 & 1) + (b >> 4 & 1)) as u16;
                 for len in [4u16, std, std + 4, std + 9, std + 10, std + 13] { out.calls += 1; out.emit(htyplen_event(b, len), true); }
-                out.emit(msin_event(b), true);
+                let me = msin_event(b);
+                // vacuity guard of the conditional parser legs (the plan requires them)
+                if me["res"]["pv"] == "msg" { *out.classes.entry("msin-leg1:msg".into()).or_insert(0) += 1; }
+                if me["res"]["leg2"]["pv"] == "msg" { *out.classes.entry("msin-leg2:msg".into()).or_insert(0) += 1; }
+                out.emit(me, true);
             }
             // type-info words through the parser, alternating byte orders on the same raw bytes (palindromic and not)
             let mut r = crate::rng::Rng::new(seed);
             for i in 0..4096u32 {
                 let w: u32 = match i % 4 { 0 => i >> 2, 1 => (i >> 2) << 4 | 3, 2 => r.next() as u32 & 0x3FFFF, _ => (r.next() as u32 & 0xFF) * 0x01000001 | (r.next() as u32 & 0xFF) << 8 | (r.next() as u32 & 0xFF) << 16 };
                 out.calls += 2;
-                out.emit(tipair_event(w.to_be_bytes()), true);
-                out.emit(tipair_event(w.to_le_bytes()), true);
+                for raw in [w.to_be_bytes(), w.to_le_bytes()] {
+                    let te = tipair_event(raw);
+                    for leg in ["a", "b"] { if te[leg]["v"] == "ok" { *out.classes.entry("tipair-leg:ok".into()).or_insert(0) += 1; } }
+                    out.emit(te, true);
+                }
             }
         }
         "ti" => {
